@@ -45,6 +45,8 @@ pub enum Corr {
     Index(usize, u64),
     Sibling(usize),
     Root,
+    /// root + 2^k
+    RootHigh(u32),
     DeleteSibling(usize),
     OtherVariant(usize),
 }
@@ -58,6 +60,7 @@ impl Corr {
             Corr::Index(i, j) => json!({"c": "index", "i": i, "to": j}),
             Corr::Sibling(k) => json!({"c": "sibling", "k": k}),
             Corr::Root => json!({"c": "root"}),
+            Corr::RootHigh(k) => json!({"c": "root_high", "k": k}),
             Corr::DeleteSibling(k) => json!({"c": "delete_sibling", "k": k}),
             Corr::OtherVariant(v) => json!({"c": "other_variant", "v": v}),
         }
@@ -72,6 +75,7 @@ impl Corr {
             "index" => Corr::Index(g("i")? as usize, g("to")?),
             "sibling" => Corr::Sibling(g("k")? as usize),
             "root" => Corr::Root,
+            "root_high" => Corr::RootHigh(g("k")? as u32),
             "delete_sibling" => Corr::DeleteSibling(g("k")? as usize),
             "other_variant" => Corr::OtherVariant(g("v")? as usize),
             _ => return None,
@@ -86,6 +90,7 @@ impl Corr {
             Corr::Index(..) => "index",
             Corr::Sibling(_) => "sibling",
             Corr::Root => "root",
+            Corr::RootHigh(_) => "root_high",
             Corr::DeleteSibling(_) => "delete_sibling",
             Corr::OtherVariant(_) => "other_variant",
         }
@@ -122,6 +127,7 @@ pub fn exec(ctx: &Ctx, own: Variant, sh: &Shape, tree: Option<&Tree>, corr: &Cor
         Corr::Index(i, j) => queries[*i].0 = fu(*j),
         Corr::Sibling(k) => wit[*k] += Felt::ONE,
         Corr::Root => root += Felt::ONE,
+        Corr::RootHigh(k) => root += Felt::TWO.pow(*k as u128),
         Corr::DeleteSibling(k) => {
             wit.remove(*k);
         }
@@ -145,7 +151,7 @@ fn add_pow2(v: &Felt, k: u32) -> Felt {
 }
 
 fn corruptions(own: Variant, sh: &Shape, n_wit: usize) -> Vec<Corr> {
-    let mut out = vec![Corr::None, Corr::Root];
+    let mut out = vec![Corr::None, Corr::Root, Corr::RootHigh(160), Corr::RootHigh(248), Corr::RootHigh(250)];
     let n = 1u64 << sh.h;
     for i in 0..sh.qs.len() {
         out.push(Corr::Value(i));
